@@ -180,6 +180,10 @@ def section_case(case):
     must("load-legal-section", ti.loads, doc)
     got = {k: list(v) for k, v in ti.checksums.checksums.items()}
     check(got == want, "table-differs-from-text", lambda: "section %r loaded as %r, the text says %r" % (lines, got, want))
+    # the lookup by path answers with the entry of exactly that path (two spellings of one location are two entries)
+    for key in want:
+        one = must("lookup-by-path", lambda: ti.checksums[key])
+        check(list(one) == want[key], "lookup-differs-from-text", lambda: "checksums[%r] = %r, the text says %r" % (key, list(one), want[key]))
     # write + read again: still exactly what the text said
     again = TreeInfo()
     must("reload", again.loads, must("dumps", ti.dumps))
